@@ -54,6 +54,9 @@ static void drv_setup(int argc, char **argv)
 static void drv_header(jb_t *b) { jb_printf(b, "\"esz\":%zu,\"hasx\":%s,\"maxn\":%d", ESZ, HASX ? "true" : "false", MAXN); }
 static void vinit(struct cstl_vector *v)
 {
+#ifdef USE_INITIALIZER
+    if (!HASX && ESZ == 4) { struct cstl_vector x = CSTL_VECTOR_INITIALIZER(uint32_t); *v = x; return; }
+#endif
     if (HASX) cstl_vector_init_complex(v, ESZ, ctor, dtor, E_PRIV); else cstl_vector_init(v, ESZ);
 }
 static void drv_reset(void) { a_reset(); vinit(&V[0]); vinit(&V[1]); cur = 0; }
